@@ -350,8 +350,11 @@ func init() {
 //	    ("write","fatal")           c.conn.Write(..) whose error returns c.writeFatal(err)
 //	    ("write","nofatal")         c.conn.Write(..) otherwise
 //	    ("latch_close","ErrCloseSent")  if <type> == CloseMessage { c.writeFatal(ErrCloseSent) }
-//	    ("release","c.mu")          c.mu <- true; a deferred release is placed last (it runs on
-//	                                every return path after the acquire)
+//	    ("release","c.mu")          c.mu <- true; a release deferred AFTER the acquire is placed last (it
+//	                                runs on every return path after the acquire)
+//	    ("release_not_dominated_by_acquire","c.mu")  a release deferred BEFORE the acquire: it also runs
+//	                                on the return paths that never obtained the lock (timeout); the
+//	                                model does not know this event, so ws_safeb rejects the skeleton
 //	websocket_writeFatal_skel:  [("set_if_nil","writeErr")] when the body is lock; if c.writeErr ==
 //	    nil { c.writeErr = err }; unlock
 //	websocket_prepWrite_skel:   events of prepWrite (contains ("test_err_ret","writeErr"): the sticky
@@ -461,6 +464,19 @@ func (w *wsWalker) stmts(list []ast.Stmt) {
 			}
 		case *ast.DeferStmt:
 			if fl, ok := s.Call.Fun.(*ast.FuncLit); ok && len(fl.Body.List) == 1 && isSendMu(fl.Body.List[0]) {
+				acquired := false
+				for _, e := range w.evs {
+					if e.kind == "acquire" || e.kind == "acquire_timeout" {
+						acquired = true
+					}
+				}
+				if !acquired {
+					// registered before the (conditional) acquire: it runs on EVERY return path, also on
+					// the timeout / early-error returns that never obtained the lock -> a token is pushed
+					// into the 1-slot channel without having been taken.  Not dominated by its acquire.
+					w.ev("release_not_dominated_by_acquire", "c.mu")
+					continue
+				}
 				w.deferred = append([]skelEv{{"release", "c.mu"}}, w.deferred...)
 			} else if wsMentions(st, wsSensitive...) {
 				w.bad = "defer touching shared state"
